@@ -56,6 +56,7 @@ class Ctx:
         self.notes = {}
         self.t0 = time.time()
         self.deadline = None
+        self.threads = 0
         self._prnd = random.Random(seed * 977 + shard * 13 + 5)
         self.error_paths = os.environ.get("VERIF_NO_ERROR_PATHS") is None and tier != "replay"
 
@@ -79,6 +80,9 @@ class Ctx:
         self._per_sig[sig] += 1
         self.counters["violation:" + sig] += 1
         if self._per_sig[sig] <= MAX_VIOL_PER_SIG:
+            if self.threads:
+                msg = f"[while {self.threads} threads were building / transforming queries concurrently] " + msg
+                witness = dict(witness or {}, concurrent_threads=self.threads)
             self.violations.append({"sig": sig, "msg": msg, "witness": witness})
 
     def foreign_obs(self, prop, msg):
@@ -121,6 +125,11 @@ class case_timeout:
 
     def __enter__(self):
         import signal
+        import threading
+
+        self._main = threading.current_thread() is threading.main_thread()
+        if not self._main:
+            return
 
         def onalarm(signum, frame):
             raise CaseTimeout()
@@ -131,6 +140,8 @@ class case_timeout:
     def __exit__(self, et, ev, tb):
         import signal
 
+        if not self._main:
+            return False
         signal.setitimer(signal.ITIMER_REAL, 0)
         signal.signal(signal.SIGALRM, self._old)
         return False
@@ -189,10 +200,57 @@ def shard_entry(argv):
         cov = LineCov(REPO, anchors).start()
     if sys.flags.optimize:
         ctx.count("shards-run-with-assertions-stripped (python -O)")
+    nthreads = mod.META.get("threads", 0) if (k % 8 == 3 and not os.environ.get("VERIF_NO_THREADS")) else 0
+    extra = []
     try:
-        mod.shard_main(ctx)
+        if nthreads:
+            # schedule dimension: this shard's workload runs in several threads at once, each with its own cases, its own
+            # library objects and its own collector; the per-case oracles do not depend on any state, so whatever the library
+            # keeps per process / per class instead of per call shows up as an ordinary violation
+            import threading
+
+            from . import modgen
+
+            modgen.DEFER_CLEANUP[0] = True
+            sys.setswitchinterval(1e-5)
+            ctx.count("shards-run-as-concurrent-threads")
+            ctx.count("concurrent-threads", nthreads)
+            extra = [Ctx(prop, tier, seed, k + 1000 * (i + 1), n) for i in range(nthreads - 1)]
+            for c in [ctx] + extra:
+                c.threads = nthreads
+            errs = []
+
+            def run(c):
+                c.deadline = ctx.deadline
+                c.error_paths = False  # error-path steps stay in the first thread
+                try:
+                    mod.shard_main(c)
+                except Exception:
+                    errs.append(traceback.format_exc())
+
+            ths = [threading.Thread(target=run, args=(c,), daemon=True) for c in extra]
+            for t in ths:
+                t.start()
+            try:
+                mod.shard_main(ctx)
+            finally:
+                for t in ths:
+                    t.join(timeout=600)
+            modgen.cleanup(force=True)
+            if errs:
+                res["crashed"] = errs[0]
+        else:
+            mod.shard_main(ctx)
     except Exception:
         res["crashed"] = traceback.format_exc()
+    for c in extra:
+        ctx.evaluations += c.evaluations
+        ctx.nontrivial |= c.nontrivial
+        ctx.counters.update(c.counters)
+        for v in c.violations:
+            v.setdefault("witness", {})
+            ctx.violations.append(v)
+        ctx.samples.extend(c.samples[:1])
     if cov is not None:
         cov.stop()
         ctx.notes["_lines"] = {f: sorted(v) for f, v in cov.hit.items()}
